@@ -423,6 +423,14 @@ func (w *redisWorld) inject(f *Fault) bool {
 		}
 		c.Failover(f.Node, f.Kind == "failover")
 		return true
+	case "replica-move":
+		// replica f.Node becomes a replica of master f.Dst (replica migration)
+		if n.MasterOf < 0 || f.Dst >= len(c.Nodes) || c.Nodes[f.Dst].MasterOf >= 0 || n.MasterOf == f.Dst {
+			return false
+		}
+		n.MasterOf = f.Dst
+		n.Store = c.Nodes[f.Dst].Store
+		return true
 	case "freeze-view":
 		n.FreezeView()
 		return true
